@@ -6,6 +6,7 @@ package main
 
 import (
 	"encoding/hex"
+	"fmt"
 	"math/big"
 	"strconv"
 	"strings"
@@ -111,6 +112,31 @@ func replayWith(h *harness, body, comments []string) (bool, string) {
 				s, _ := hex.DecodeString(f[1])
 				j, _ := strconv.ParseUint(f[2], 10, 32)
 				h.priorityCase(common.BytesToHash(s), uint32(j))
+			}
+		case "malformed":
+			// malformed hash stake thr total sub vrf priority
+			if len(f) == 8 {
+				hbs, e1 := hex.DecodeString(f[1])
+				stake, _ := strconv.ParseInt(f[2], 10, 64)
+				thr, _ := strconv.ParseUint(f[3], 10, 64)
+				total, ok := new(big.Int).SetString(f[4], 10)
+				sub, _ := strconv.ParseUint(f[5], 10, 32)
+				pr, e2 := hex.DecodeString(f[7])
+				if e1 == nil && e2 == nil && ok {
+					pk := &fakePK{h: common.BytesToHash(hbs)}
+					if f[6] == "err" {
+						pk.err = fmt.Errorf("invalid VRF proof")
+					}
+					c := claim{pk: pk, seed: common.Hash{}, index: 1, role: 2, proof: []byte{7}, sub: uint32(sub), priority: common.BytesToHash(pr), thr: thr, stake: big.NewInt(stake), total: total}
+					vs, vp := realVerify(c)
+					if h.drv != nil {
+						ls := h.askChoose(fmt.Sprintf("VS %s %d %d %d %s", total.String(), thr, stake, sub, f[6]), stake)
+						lp := h.askChoose(fmt.Sprintf("VP %s %d %d %d %s %s", total.String(), thr, stake, sub, f[6], f[7]), stake)
+						if ls != vs || lp != vp {
+							h.msgs = append(h.msgs, fmt.Sprintf("correspondence: verifiers go=%s/%s lean=%s/%s", vs, vp, ls, lp))
+						}
+					}
+				}
 			}
 		case "server":
 			// server seedhex key,key,key, who kind
